@@ -13,6 +13,8 @@ def run(ctx):
     fp, beh = ctx.tlc_gen("util", "MultipartGen", "MultipartGen.cfg", consts={"MR": mr}, outfile="forms.ndjson", workers=4, timeout=1200)
     if not beh or not fp:
         raise Infra("MultipartGen produced no behaviours/forms")
+    # KeepHijackedConns only matters for histories that hijack
+    beh = [b for b in beh if not (b.get("keepHij") and "ondemandhijack" not in json.dumps(b))]
     if ctx.quick:
         # a history with a file above the 16 MiB pre-parse threshold moves >16 MiB through the
         # server and the disk: the quick tier replays a seeded sample of 24 of them
